@@ -247,6 +247,7 @@ class Raises:
         if isinstance(st, (ast.For, ast.AsyncFor)):
             self._expr(fi, st.iter, frames, out)
             self._consume(fi, st.iter, st, frames, out)
+            self._iter_protocol(fi, st.iter, st, frames, out)
             self._block(fi, st.body, frames, out, reraise)
             self._block(fi, st.orelse, frames, out, reraise)
             return
@@ -427,6 +428,22 @@ class Raises:
         for c in ast.iter_child_nodes(e):
             if isinstance(c, ast.expr):
                 self._expr(fi, c, frames, out)
+
+    def _iter_protocol(self, fi, it_expr, site, frames, out):
+        """Iterating an h2 object calls its __iter__/__next__; the loop
+        itself consumes StopIteration."""
+        for a in self.r.type_of(it_expr, fi):
+            if a[0] != 'inst':
+                continue
+            for mn in ('__iter__', '__next__'):
+                meth = self.m.lookup_method(a[1], mn)
+                if meth is None or meth.is_generator:
+                    continue
+                for exc, w in self.escapes.get(meth.qual, {}).items():
+                    if exc == 'StopIteration':
+                        continue
+                    self._raise(exc, self._w(fi, site, 'iterates %s'
+                                             % meth.qual, w), frames, out, fi)
 
     def _type_guard_dead(self, fi, test):
         if not (isinstance(test, ast.UnaryOp) and
